@@ -21,7 +21,7 @@ META = {
     "assumptions": ["text (STR) code units are non-zero", "float scaling is an uninterpreted pair (raw term, constant)",
                     "definitions tables of /repo are the reference for field order/width/type (pinned separately by C10)"],
 }
-WALL_BUDGET = {"quick": 480, "thorough": 3000}
+WALL_BUDGET = {"quick": 900, "thorough": 3000}
 
 
 def jobs(tier, seed):
